@@ -359,62 +359,7 @@ func runC13(c *Ctx) {
 		c.check(okIns, "index-complete.inserted", g.ID, p.Pos(g.Decl.Pos()), "every key returned by bundleKeys is inserted in the local KV", "repoKeysScanner no longer inserts every key returned by bundleKeys into the KV store")
 	}
 	// (3) index time
-	{
-		f := p.Func("pkg/core.PurgeBuildReverseIndex")
-		info := f.Info()
-		var tv *types.Var
-		for _, cs := range callersOf(p, "pkg/core.uploader") {
-			if cs.Fn.ID == f.ID {
-				if id, ok := ast.Unparen(cs.Call.Args[2]).(*ast.Ident); ok {
-					tv, _ = info.Uses[id].(*types.Var)
-				}
-			}
-		}
-		if tv == nil {
-			c.fail("index-time", f.ID, p.Pos(f.Decl.Pos()), "the index time handed to the uploader is not a variable")
-		} else {
-			// initial definition: time.Now().UTC() before any scan
-			okInit, okResume, okRet := false, false, false
-			for _, d := range defsOfVarWithIndex(f, tv) {
-				if d.rhs != nil && describeExpr(f, d.rhs, 0) == "call:time.Now().UTC()" {
-					okInit = true
-				}
-				if d.rhs != nil && strings.HasPrefix(describeExpr(f, d.rhs, 0), "*call:pkg/core.preloadIndexFiles(") && strings.HasSuffix(describeExpr(f, d.rhs, 0), "#2") {
-					okResume = true
-				}
-			}
-			for _, cl := range compositeLits(f, "pkg/core.PurgeIndex") {
-				if v := fieldOfCompositeLit(cl, "IndexTime"); v != nil {
-					if id, ok := ast.Unparen(v).(*ast.Ident); ok && info.Uses[id] == tv {
-						okRet = true
-					}
-				}
-			}
-			b := p.BodyOf(f)
-			bad, _ := b.dominatedBy(func(bd *Body, call *ast.CallExpr) bool { return describeExpr(f, call, 0) == "call:time.Now().UTC()" }, callTo("pkg/core.scanContext", "pkg/core.uploader", "pkg/core.openKV"))
-			c.check(okInit && len(bad) == 0, "index-time.before-scan", f.ID, p.Pos(f.Decl.Pos()), "the index time is taken before anything is scanned", "the index time is no longer taken (time.Now) before the scan starts: blobs written during the scan are older than the index yet missing from it")
-			c.check(okResume, "index-time.resume-keeps-original", f.ID, p.Pos(f.Decl.Pos()), "on resume the same variable is assigned the original index's time", "on resume the variable handed to the uploader is no longer assigned the original index time (e.g. a shadowing := in the resume block): the resumed index is stamped with the resume time and blobs written between start and resume lose their protection")
-			c.check(okRet, "index-time.returned", f.ID, p.Pos(f.Decl.Pos()), "the returned descriptor carries that same time", "PurgeIndex.IndexTime is no longer the variable handed to the uploader")
-		}
-		// chunk header carries that time: dbReader.Read prints r.indexTime first, chunkUploader passes indexTime to newDBReader
-		cu := p.Func("pkg/core.chunkUploader")
-		okHdr := false
-		for _, cs := range callersOf(p, "pkg/core.newDBReader") {
-			if cs.Fn.ID == cu.ID && describeExpr(cu, cs.Call.Args[2], 0) == "param#4" {
-				okHdr = true
-			}
-		}
-		c.check(okHdr, "index-time.chunk-header", cu.ID, p.Pos(cu.Decl.Pos()), "every chunk is stamped with the index time given to the uploader", "chunkUploader no longer stamps chunks with the uploader's index time")
-		// delete-unused compares with the time loaded from the chunks
-		du := p.Func("pkg/core.PurgeDeleteUnused")
-		okUse := false
-		for _, cs := range callersOf(p, "pkg/core.scanBlob") {
-			if cs.Fn.ID == du.ID && strings.HasPrefix(describeExpr(du, cs.Call.Args[4], 0), "*call:pkg/core.copyIndexChunks(") {
-				okUse = true
-			}
-		}
-		c.check(okUse, "index-time.used-by-delete", du.ID, p.Pos(du.Decl.Pos()), "delete-unused compares blob ages with the time recorded in the index chunks", "PurgeDeleteUnused no longer uses the index time loaded from the index chunks")
-	}
+	checkIndexTime(c)
 	// (4) chunk numbering
 	checkChunkNumbering(c)
 	// (7) clauses violated on today's tree (genuine defects, demonstrated in /verif/triage/c13_findings_test.go; see
@@ -857,6 +802,7 @@ func runC14(c *Ctx) {
 	}
 	// exactness of the index: chunk numbering and asynchronous chunk copies (shared with C13)
 	checkChunkNumbering(c)
+	checkIndexTime(c)
 	if n := checkLoopVarCapture(c, "loopvar", "pkg/core"); n < 2 {
 		c.fail("loopvar", "instances", "-", "expected at least 2 asynchronous closures inside loops in pkg/core, found "+itoa(n))
 	}
@@ -1007,6 +953,69 @@ func checkChunkNumbering(c *Ctx) {
 			return true
 		})
 		c.check(okMax, "chunk-numbering.resume-after-last", h.ID, p.Pos(h.Decl.Pos()), "lastIndex is the maximum chunk number found", "copyIndexChunks no longer computes the maximum chunk number")
+	}
+	_ = p
+}
+
+
+// checkIndexTime is shared by C13 and C14 (the delete cut-off must be the time the scan started).
+func checkIndexTime(c *Ctx) {
+	p := c.P
+	{
+		f := p.Func("pkg/core.PurgeBuildReverseIndex")
+		info := f.Info()
+		var tv *types.Var
+		for _, cs := range callersOf(p, "pkg/core.uploader") {
+			if cs.Fn.ID == f.ID {
+				if id, ok := ast.Unparen(cs.Call.Args[2]).(*ast.Ident); ok {
+					tv, _ = info.Uses[id].(*types.Var)
+				}
+			}
+		}
+		if tv == nil {
+			c.fail("index-time", f.ID, p.Pos(f.Decl.Pos()), "the index time handed to the uploader is not a variable")
+		} else {
+			// initial definition: time.Now().UTC() before any scan
+			okInit, okResume, okRet := false, false, false
+			for _, d := range defsOfVarWithIndex(f, tv) {
+				if d.rhs != nil && describeExpr(f, d.rhs, 0) == "call:time.Now().UTC()" {
+					okInit = true
+				}
+				if d.rhs != nil && strings.HasPrefix(describeExpr(f, d.rhs, 0), "*call:pkg/core.preloadIndexFiles(") && strings.HasSuffix(describeExpr(f, d.rhs, 0), "#2") {
+					okResume = true
+				}
+			}
+			for _, cl := range compositeLits(f, "pkg/core.PurgeIndex") {
+				if v := fieldOfCompositeLit(cl, "IndexTime"); v != nil {
+					if id, ok := ast.Unparen(v).(*ast.Ident); ok && info.Uses[id] == tv {
+						okRet = true
+					}
+				}
+			}
+			b := p.BodyOf(f)
+			bad, _ := b.dominatedBy(func(bd *Body, call *ast.CallExpr) bool { return describeExpr(f, call, 0) == "call:time.Now().UTC()" }, callTo("pkg/core.scanContext", "pkg/core.uploader", "pkg/core.openKV"))
+			c.check(okInit && len(bad) == 0, "index-time.before-scan", f.ID, p.Pos(f.Decl.Pos()), "the index time is taken before anything is scanned", "the index time is no longer taken (time.Now) before the scan starts: blobs written during the scan are older than the index yet missing from it")
+			c.check(okResume, "index-time.resume-keeps-original", f.ID, p.Pos(f.Decl.Pos()), "on resume the same variable is assigned the original index's time", "on resume the variable handed to the uploader is no longer assigned the original index time (e.g. a shadowing := in the resume block): the resumed index is stamped with the resume time and blobs written between start and resume lose their protection")
+			c.check(okRet, "index-time.returned", f.ID, p.Pos(f.Decl.Pos()), "the returned descriptor carries that same time", "PurgeIndex.IndexTime is no longer the variable handed to the uploader")
+		}
+		// chunk header carries that time: dbReader.Read prints r.indexTime first, chunkUploader passes indexTime to newDBReader
+		cu := p.Func("pkg/core.chunkUploader")
+		okHdr := false
+		for _, cs := range callersOf(p, "pkg/core.newDBReader") {
+			if cs.Fn.ID == cu.ID && describeExpr(cu, cs.Call.Args[2], 0) == "param#4" {
+				okHdr = true
+			}
+		}
+		c.check(okHdr, "index-time.chunk-header", cu.ID, p.Pos(cu.Decl.Pos()), "every chunk is stamped with the index time given to the uploader", "chunkUploader no longer stamps chunks with the uploader's index time")
+		// delete-unused compares with the time loaded from the chunks
+		du := p.Func("pkg/core.PurgeDeleteUnused")
+		okUse := false
+		for _, cs := range callersOf(p, "pkg/core.scanBlob") {
+			if cs.Fn.ID == du.ID && strings.HasPrefix(describeExpr(du, cs.Call.Args[4], 0), "*call:pkg/core.copyIndexChunks(") {
+				okUse = true
+			}
+		}
+		c.check(okUse, "index-time.used-by-delete", du.ID, p.Pos(du.Decl.Pos()), "delete-unused compares blob ages with the time recorded in the index chunks", "PurgeDeleteUnused no longer uses the index time loaded from the index chunks")
 	}
 	_ = p
 }
